@@ -25,6 +25,7 @@ func init() {
 func inC02Pkg(rel string) bool { return rel == "core/types" || rel == "core/payload" }
 
 func runC02(c *core.Ctx) {
+	c.Floor("zero-copy reads examined for lost end-of-input (ledger objects)", checkEofNotLost(c, "C02.eof-not-lost", funcsOfPkgs(c, "core/types", "core/payload")), 20)
 	checkEncoderCounts(c, "C02.count-matches-elements", inC02Pkg, 1, 1)
 	n := checkCodecPairs(c, "C02.schema", func(p codecPair) bool { return inC02Pkg(p.Pkg) })
 	c.Floor("codec pairs in core/types and core/payload", n, 4)
